@@ -46,6 +46,13 @@ def build_jobs(seed, n):
         jobs.append({"id": f"c12s{j}", "kind": "c12.cfg", "cfg": c12.CFGS[name], "cfg_name": name,
                      "seed": seed + j, "tier": "quick", "slice": [j % nsl, nsl],
                      "prev_cfg": c12.CFGS["hid-clean"]})
+    # the newer job kinds
+    jobs.append({"id": "c11sweep", "kind": "c11.abort_sweep", "cfg": pool[0], "others": pool[1:3],
+                 "max_aborts": 12})
+    for j in range(4):
+        jobs.append({"id": f"c11cov{j}", "kind": "c11.cover", "cfg": pool[j]})
+        jobs.append({"id": f"c11ref{j}", "kind": "c11.ref", "cfg": pool[j], "junk": 50000 * j,
+                     "junk_free": bool(j % 2)})
     trig = c12.trigger_scenarios()
     jobs.append({"id": "c12t", "kind": "c12.scenarios", "keep_going": True,
                  "scenarios": trig[:: max(1, len(trig) // 10)]})
@@ -61,8 +68,11 @@ def main(args, seed):
         n = int(args[args.index("--n") + 1])
     t0 = time.monotonic()
     jobs = build_jobs(seed, n)
+    # same worlds at three worker counts, plus worlds under another hash seed and another
+    # allocator: nothing in a job result may depend on any of these
     variants = [("par16", {"PYTHONHASHSEED": "0"}, 16), ("par3", {"PYTHONHASHSEED": "0"}, 3),
-                ("par7", {"PYTHONHASHSEED": "0"}, 7)]
+                ("par7", {"PYTHONHASHSEED": "0"}, 7), ("hs4242", {"PYTHONHASHSEED": "4242"}, 16),
+                ("malloc", {"PYTHONHASHSEED": "77", "PYTHONMALLOC": "malloc"}, 11)]
     digs = {}
     for name, env, par in variants:
         res, skipped = driver.run_simple(list(jobs), par=par, env_extra=env, job_timeout=900,
